@@ -222,7 +222,7 @@ func drawC16(t *rapid.T) C16Case {
 func TestC16(t *testing.T) {
 	rec := obs.New("C16")
 	defer rec.Flush(true)
-	rec.SetExtra("rule", "rapid: identifier in {absent, 0, 1, 2, 2^31, 2^32-2, 2^32-1, random} x derivation history of 0-6 append / seal / serialize+unmarshal steps x key map of 0-4 entries (right or wrong key under the token's id, under id+-1, under unrelated ids) x default key {none, right, wrong}. Oracle: RootKeyID() and the independently decoded rootKeyId equal the creation id after every step; AuthorizerFor(WithRootPublicKeys) succeeds iff the reference projection selects the real root key, fails with ErrNoPublicKeyAvailable iff it selects nothing, fails with another error iff it selects a wrong key. Non-trivial = derived token (>=1 append or seal) carrying an id, looked up in a map with >= 2 entries; distinct by (id, history, map, default).")
+	rec.SetExtra("rule", "rapid: identifier in {absent, 0, 1, 2, 2^31, 2^32-2, 2^32-1, random} (given before the random-source option for odd ids, after it for even ids) x derivation history of 0-6 append / seal / serialize+unmarshal steps x key map of 0-4 entries (right or wrong key under the token's id, under id+-1, under unrelated ids) x default key {none, right, wrong}. Oracle: RootKeyID() and the independently decoded rootKeyId equal the creation id after every step; AuthorizerFor(WithRootPublicKeys) succeeds iff the reference projection selects the real root key, fails with ErrNoPublicKeyAvailable iff it selects nothing, fails with another error iff it selects a wrong key. Non-trivial = derived token (>=1 append or seal) carrying an id, looked up in a map with >= 2 entries; distinct by (id, history, map, default).")
 	rec.SetExtra("assumptions", []string{"the independent wire reader gives the serialized identifier"})
 	harness.RunWith(t, harness.Spec[C16Case]{ID: "C16", Draw: drawC16, Check: checkC16}, rec)
 }
